@@ -547,6 +547,54 @@ func c20Monitor(args []string) int {
 				}
 			}
 		}
+		// the same Book object initialised again after Reset() (the API offers it) while the cache is missing,
+		// damaged or bypassed: the book must be the source-built one, and so must the cache it writes back
+		{
+			half := []byte{}
+			if len(full) > 1 {
+				half = full[:len(full)/2]
+			}
+			for _, rv := range []struct {
+				name  string
+				data  []byte // nil = no cache file
+				reuse bool   // load through the cache / recreate it
+			}{{"missing", nil, true}, {"garbage", []byte("garbage that is not gob"), true}, {"half", half, true}, {"empty", []byte{}, true}} {
+				in := map[string]interface{}{"collection": c, "variant": "reset-then-" + rv.name + "-cache", "seed": seed}
+				setCurrent(in)
+				rep.Cases++
+				os.Remove(cache)
+				ob, err, hung := buildBook(dir, "book.txt", openingbook.San, true) // an initialised object (writes a good cache)
+				if hung || err != nil {
+					rep.Violate("cache-build-fails", in, fmt.Sprint(err, hung))
+					break
+				}
+				ob.Reset()
+				os.Remove(cache)
+				if rv.data != nil {
+					ioutil.WriteFile(cache, rv.data, 0644)
+				}
+				var ierr error
+				if !callWithWatchdog(30*time.Second, func() { ierr = ob.Initialize(dir, "book.txt", openingbook.San, true, false) }) {
+					rep.Violate("cache-damaged-hangs", in, "Initialize after Reset did not return within 30 s")
+					return rep.Emit()
+				}
+				if ierr != nil {
+					rep.Violate("cache-damaged-error", in, ierr.Error())
+					continue
+				}
+				if d := diffSnap(exp, snapshotOf(ob)); d != "" {
+					rep.Violate("cache-damaged-wrong-book", in, "the re-initialised object: "+d)
+					continue
+				}
+				// what it wrote back is loaded by a fresh object
+				nb, err, hung := buildBook(dir, "book.txt", openingbook.San, true)
+				if hung || err != nil || diffSnap(exp, snapshotOf(nb)) != "" {
+					rep.Violate("cache-roundtrip", in, "the cache written by the re-initialised object does not load as the source-built book")
+				}
+				rep.Stats["reset_then_initialize_cases"]++
+			}
+			os.Remove(cache)
+		}
 		rep.Distinct += len(variants)
 		if c == 0 {
 			rep.Sample(map[string]interface{}{"cache_bytes": len(full), "variants": len(variants), "games": len(games)})
